@@ -197,8 +197,11 @@ def g_value(v):
     if k == "dict":
         return {g_value(p["key"]): g_value(p["val"]) for p in v["pairs"]}
     if k == "uuid":
-        return uuid.UUID(int=0x1234567890abcdef1234567890abcdef + v["id"], version=v["ver"]) \
-            if v["ver"] in (1, 3, 4, 5) else uuid.UUID(int=v["id"])
+        if v["ver"] in (1, 3, 4, 5):
+            return uuid.UUID(int=0x1234567890abcdef1234567890abcdef + v["id"], version=v["ver"])
+        if v["id"] == 1:
+            return _UUID_LOOKALIKE       # version nibble 4, variant bits not RFC 4122: .version is None
+        return uuid.UUID(int=v["id"])
     if k == "datetime":
         return _dt.datetime(2020, 1, 2, 3, 4, 5) + _dt.timedelta(days=v["dt"])
     if k == "date":
@@ -257,6 +260,7 @@ def a_text(s):
 
 
 _UUID_BASE = 0x1234567890abcdef1234567890abcdef
+_UUID_LOOKALIKE = uuid.UUID("12345678-1234-4234-0234-123456789abc")
 
 
 def a_value(x):
@@ -290,6 +294,8 @@ def a_value(x):
             for i in range(0, 64):
                 if uuid.UUID(int=_UUID_BASE + i, version=ver) == x:
                     return {"k": "uuid", "ver": ver, "id": i}
+        if x == _UUID_LOOKALIKE:
+            return {"k": "uuid", "ver": 0, "id": 1}
         if ver is None and x.int < 64:
             return {"k": "uuid", "ver": 0, "id": x.int}       # not an RFC 4122 UUID: version is None
         raise Unrepresentable("uuid %r" % (x,))
